@@ -294,6 +294,8 @@ int main(int argc, char **argv)
             run_ranges(r);
         } else {
             Msg m = gen::gen_msg(r, 12, true);
+            // many value-carrying arguments (more than any fixed-size scratch array would hold)
+            if(r.chance(0.03)) { m.types.clear(); m.vals.clear(); int n = (int)r.range(30, 70); for(int q = 0; q < n; ++q) { char t = "ifhdscmtr"[r.below(9)]; m.types += t; m.vals.push_back(gen::gen_val(r, t, 2)); } for(auto &v : m.vals) if(v.blob.size() > 64) v.blob.resize(64); count("cases.many_value_arguments"); }
             count("cases.random");
             run_msg(m);
         }
